@@ -20,7 +20,7 @@ PHASES = ('initial', 'repopulate', 'statistics', 'optimise', 'relabel', 'bic', '
 
 class MainLoop:
     def __init__(self, Rp, c, K, n, modes=None, label_hook=None, fault=None, env_mp=None,
-                 schedule='fifo', admm='summary'):
+                 schedule='fifo', admm='summary', spd=False, concrete_mean=None):
         """modes: phase -> 'real' | 'summary'.  label_hook(round, T) -> labels for the
         relabel summary (default: fresh symbolic labels).  fault(round, phase) -> exception
         to raise or None."""
@@ -42,6 +42,8 @@ class MainLoop:
         self.kernel_calls = []
         self.fresh = 0
         self.relabel_states = []
+        self.spd = spd
+        self.concrete_mean = concrete_mean    # fn(round, k, j) -> number, or None (symbolic)
 
     # ---- fresh symbolic content
     def _name(self, hint):
@@ -51,6 +53,12 @@ class MainLoop:
     def fresh_vec(self, hint, n):
         nm = self._name(hint)
         return np.ndarray._new([self.c.real('%s_%d' % (nm, i)) for i in range(n)], (n,), np.float64)
+
+    def named_vec(self, nm, n):
+        return np.ndarray._new([self.c.real('%s_%d' % (nm, i)) for i in range(n)], (n,), np.float64)
+
+    def named_sym(self, nm, n):
+        return stubs.sym_symmetric(self.c, nm, n, owner='lib')
 
     def fresh_sym(self, hint, n):
         return stubs.sym_symmetric(self.c, self._name(hint), n, owner='lib')
@@ -157,8 +165,11 @@ class MainLoop:
         cl = []
         for k in range(len(model.clusters)):
             x = model.clusters[k].shallow_copy()
-            x.stacked_data_mean = self.fresh_vec('mu', self.n)
-            x.empirical_covariance = self.fresh_sym('S', self.n)
+            if self.concrete_mean is not None:
+                x.stacked_data_mean = np.array([float(self.concrete_mean(self.round, k, j)) for j in range(self.n)])
+            else:
+                x.stacked_data_mean = self.named_vec('mu_r%d_k%d' % (self.round, k), self.n)
+            x.empirical_covariance = self.named_sym('S_r%d_k%d' % (self.round, k), self.n)
             cl.append(x)
         new.clusters = cl
         return new
@@ -168,9 +179,15 @@ class MainLoop:
         cl = []
         for k in range(len(model.clusters)):
             x = model.clusters[k].shallow_copy()
-            x.train_inverse = self.fresh_sym('Th', self.n)
-            x.computed_covariance = self.fresh_sym('Cv', self.n)
-            x.log_determinant = self.c.real(self._name('ld'))
+            x.train_inverse = self.named_sym('Th_r%d_k%d' % (self.round, k), self.n)
+            if self.spd == 'dominant':
+                from . import logdet
+                logdet.assume_diag_dominant(self.c, x.train_inverse)
+            elif self.spd:
+                from . import states
+                states.assume_spd(self.c, x.train_inverse)
+            x.computed_covariance = self.named_sym('Cv_r%d_k%d' % (self.round, k), self.n)
+            x.log_determinant = self.c.real('ld_r%d_k%d' % (self.round, k))
             cl.append(x)
         new.clusters = cl
         return new
